@@ -16,10 +16,12 @@ Tie to /repo on every run (exact, Gaussian-integer data, no tolerance):
   * a malformed stream (duplicate / overlapping / out-of-range qubits, wrong matrix size) must be
     rejected by both sides;
   * fused circuits (`Circuit.fuse`): execution and `FusedGate.matrix` against the model, and
-    `Circuit.unitary()` of the fused circuit against the spec.
+    `Circuit.unitary()` of the fused circuit against the model (Props.unitary_queue_ok) and the spec;
+  * gate tables (harness/c01_tables.py): every gate class's traced matrix equals the documented
+    matrix of Spec/GateSpec.v for all parameters, is unitary, and constructor roles are as documented.
 This module also holds the helpers shared with harness/c02.py (density matrices).
 """
-STATIC = ["C01/Props", "C01/Examples"]
+STATIC = ["C01/Props", "C01/Examples", "Spec/GateSpec", "Base/TrigMat"]
 import hashlib
 import itertools
 import json
@@ -531,7 +533,7 @@ def malformed_check(run, rng, dm=False):
 
 # ------------------------------------------------------------------ fused circuits
 def fused_cases(run, rng):
-    # first the witness of Props.unitary_queue_refuted, replayed on the implementation: X(0), Y(0) fused
+    # first the historical witness (ProofsQueue.historical_unitary_queue_skipping_wrong): X(0), Y(0) fused
     cases = [{"n": 1, "gates": [named_gate(rng, 1, "X", [0], []), named_gate(rng, 1, "Y", [0], [])],
               "init": [[1, 0], [0, 0]], "fuse": 1}]
     for i in range(12 if run.tier != "thorough" else 60):
@@ -597,11 +599,10 @@ def fused_check(run, rng):
             else:
                 run.find(key + ":unitary", "Circuit.unitary() of the fused circuit contradicts the spec", {"case": case})
     if skipped:
+        # defect repaired in /repo by 93eb16277 (Circuit.unitary skipped FusedGate); if it returns it is a violation
         case = min(skipped, key=lambda c: (len(c["gates"]), c["n"]))
-        if "unitary_queue_refuted" not in run.refuted:
-            run.refuted.append("unitary_queue_refuted")
         run.find("unitary_skips_fused", "Circuit.unitary() of a fused circuit is not the operator the circuit executes "
-                 "(FusedGate is a SpecialGate and is skipped)",
+                 "(contradicts Props.unitary_queue_ok; FusedGate members missing from the product?)",
                  {"case": case, "mechanism": "fused", "circuits_affected_this_run": len(skipped)})
     run.notes["fused_circuits"] = len(cases)
 
@@ -683,7 +684,11 @@ def main(run):
           ["model_state", "thmspec_state", "model_unitary", "thmspec_unitary", "gate_ok"], shrink_sv(run))
     malformed_check(run, rng)
     fused_check(run, rng)
+    from harness import c01_tables
+    c01_tables.run_tables(run, rng)
     return run.finish(level="proof", rule=(
+        "gate tables: one obligation per gate class of gates.py (traced matrix = documented matrix of Spec/GateSpec.v for all "
+        "parameters, unitarity for all parameters, constructor argument roles); index part: "
         "random circuits n in 1..5, depth 1..6, Unitary gates with Gaussian-integer matrices on random ordered target tuples "
         "(arity 1..3) with 0..n-k controls given in random order, plus exact named gates; depth-1 sweep over all "
         "(ordered targets, control subset) placements (quick: all n<=3 + sample, thorough: all n<=5 arity<=3); "
